@@ -92,6 +92,16 @@ fn scenes(m: Method, backward: bool) -> Vec<Scene> {
             v.push(sc);
         }
     }
+    // RK4 over [3e-13, 4e-13] in sixty-four steps (the oscillator in units of 1e-14): the step divides the interval, the
+    // abscissae carry rounding errors, and the landing rule's margin of a hundredth of a step is 1.6e-17
+    if m == Method::RK4 {
+        let mut sc = mk(crate::problems::timescale(&base(Base::Harmonic(2.0)), 1e14), 1e-13, 1e-5, 1e-8, false);
+        let sg = if backward { -1.0 } else { 1.0 };
+        sc.cfg.x0 = sg * 3e-13;
+        sc.cfg.xend = sg * 4e-13;
+        sc.cfg.first_step = Some((sc.cfg.xend - sc.cfg.x0) / 64.0);
+        v.push(sc);
+    }
     // dense output switched off at the builder: the same protocol without the interpolant
     if m != Method::BDF {
         let mut sc = mk(base(Base::Harmonic(2.0)), 1.5, 1e-5, 1e-8, false);
